@@ -42,6 +42,17 @@ static TaskResult run_task_ops(const std::vector<Op> &ops) {
     for (auto &op : ops) {
       if (op.k == "YIELD") ts_yield((long)op.arg(0));
       else if (op.k == "RP") op_rp(x, run, op);
+      else if (op.k == "PLC" || op.k == "FEC") {
+        // receiver-side loss handling inside a task: concealment / FEC calls on every decoder replica of the task
+        for (size_t i = 0; i < x.S.decs.size(); i++) {
+          DecNode &d = *x.S.decs[i]; int n = (int)(1 + ((op.arg(0) % 24) + 24) % 24) * d.fs / 400; uint64_t h = 0; int r;
+          if (op.k == "PLC" || x.last_pkt.empty()) r = d.decode(nullptr, 0, n, 0, x.S.dec_fmt[i], nullptr, &h);
+          else r = d.decode(x.last_pkt.data(), (int)x.last_pkt.size(), n, 1, x.S.dec_fmt[i], nullptr, &h);
+          run.ev((uint64_t)r); run.ev(h);
+        }
+        run.count(op.k == "PLC" ? "plc_ops" : "fec_ops");
+      }
+      else if (op.k == "DRESET") { for (auto &d : x.S.decs) { run.ev((uint64_t)d->reset()); } }
       else if (op.k == "DESTROY") { x.S.decs.clear(); x.S.dec_fmt.clear(); x.S.enc.destroy(); }
       else x.do_op(op);
     }
@@ -84,7 +95,7 @@ void exec(const Plan &p, Run &run) {
   if (st.pre_fired > 0) run.fired = true;
   for (size_t i = 0; i < n; i++) {
     run.ev(inter[i].evhash); run.api_ok += inter[i].api_ok; run.sim_samples48 += inter[i].sim48;
-    for (auto &kv : inter[i].stat) if (kv.first.rfind("mode_", 0) == 0 || kv.first == "rp_ops" || kv.first == "ctl_applied") run.count(kv.first, kv.second);
+    for (auto &kv : inter[i].stat) if (kv.first.rfind("mode_", 0) == 0 || kv.first == "rp_ops" || kv.first == "plc_ops" || kv.first == "fec_ops" || kv.first == "ctl_applied") run.count(kv.first, kv.second);
   }
   // signature = the interleaving actually executed: per-task access counts at the time of the run + switch count + preemptions
   run.sg((uint64_t)st.switches); run.sg((uint64_t)st.pre_fired);
@@ -129,6 +140,8 @@ void gen_task(Rng &r, std::vector<Op> &ops, int tier, int force_kind) {
     if (r.chance(0.05)) ops.push_back(mkop("CTL", {11002, r.pick({1000, 1001, 1002, -1000})}));
     ops.push_back(mkop("ENC", {fidx, r.pick({1500, 1500, 1276, 200, 40, 8}), r.range(0, 2)}));
     if (r.chance(0.15)) ops.push_back(mkop("RP", {r.range(0, 3)}));
+    if (r.chance(0.12)) ops.push_back(mkop(r.chance(0.6) ? "PLC" : "FEC", {r.pick({3, 7, 7, 1, 15, 23})}));
+    if (r.chance(0.02)) ops.push_back(mkop("DRESET"));
     if (r.chance(0.2)) ops.push_back(mkop("YIELD", {r.range(0, 7)}));
   }
   if (r.chance(0.5)) ops.push_back(mkop("DESTROY"));
